@@ -211,7 +211,7 @@ def gen_spawn(d: D, prof: dict, depth: int, op: Optional[dict] = None) -> dict:
             op["shapes"] = [d.i(0, 6) for _ in range(d.i(1, 3))]
         if d.p(prof.get("p_iter_raise", 0.0)) and op["n"]:
             op["iter_raise_at"] = d.i(0, op["n"] - 1)
-            op["fault_kind"] = d.i(0, 4)
+            op["fault_kind"] = d.i(0, 5)
         if d.p(0.12):
             op["as_cursor"] = True          # an iterable whose __iter__ is observable (not its own iterator)
         if d.p(0.1):
